@@ -5,7 +5,7 @@ from vcheck import sh, BIN, REPO
 
 GO_CMDS = ["h_memo"]
 TRANSLATORS = []
-COQ_PROJECTS = ["Memo"]
+COQ_PROJECTS = ["Values", "Memo"]
 
 TRUSTED = vcheck.STD_TRUSTED + [
     "the wrapped store is abstract in the theorems (Section variable inner_step); its operations are assumed atomic "
